@@ -215,6 +215,30 @@ var scenarios = []scenario{
 		s.opLookup(s.root(), "d")
 		s.opLookup(s.root(), "f")
 	}},
+	{"overwrite inside existing blocks at every block-map level", func(s *seqRun) {
+		// short and long, aligned and unaligned overwrites of data that is already there — in the
+		// direct, indirect and double-indirect ranges (first and later second-level blocks) — must
+		// change exactly the bytes written
+		f := s.mk("create", s.root(), "f")
+		blocks := []uint64{0, 3, 7, 8, 13, 8 + 511, 8 + 512, 8 + 512 + 3, 8 + 512 + 511, 8 + 512 + 512, 8 + 512 + 512*2 + 7}
+		for _, b := range blocks {
+			d := s.mkData(2 * 4096)
+			s.opWrite(f, b*4096, uint32(len(d)), 2, d)
+		}
+		for i, b := range blocks {
+			s.opWrite(f, b*4096, 100, uint32(i%3), pat(0x11, 100))      // aligned, short
+			s.opWrite(f, b*4096+200, 50, 2, pat(0x22, 50))               // unaligned, short
+			s.opWrite(f, b*4096+4000, 200, 2, pat(0x33, 200))            // across the block boundary
+			s.opWrite(f, (b+1)*4096, 4095, 2, pat(0x44, 4095))           // aligned, one byte short of a block
+			s.opRead(f, b*4096, 2*4096)
+		}
+		s.opCommit(f, 0, 0)
+		s.opRestart()
+		for _, b := range blocks {
+			s.opRead(f, b*4096, 2*4096)
+		}
+		// the same for a directory-sized object is covered by the enumeration scenarios
+	}},
 	{"block-map boundaries", func(s *seqRun) {
 		f := s.mk("create", s.root(), "f")
 		for _, off := range []uint64{7*4096 + 100, (8+511)*4096 + 4000, (8+512+511)*4096 + 1, (8 + 512 + 512*3) * 4096} {
